@@ -44,6 +44,14 @@ def arrays_in(b):
 
 
 def check_config(ctx, F, tag):
+    from core import Relabel
+    if not isinstance(ctx, Relabel) and tag in ("", "@portable"):
+        # (borrowed) the buffer length the flush arithmetic relies on is a whole number of words because the constructor rounds it
+        # with bits::round_up_to_word_bits: that helper, and the two it is made of, against their closed forms (C17.R8)
+        import c17
+        c17.check_config(Relabel(ctx, {"C17.R8.rounding-helper-closed-form": ("C12.R3.buffer-rounding-helper",
+                                                                               lambda k: any(x in k for x in ("round_up_to_word_bits", "bits_to_words", "words_to_bits")))}),
+                         F, tag, "native" if tag == "" else "portable")
     impls = {im["self"]: im for im in serfmt.serialize_impls(F)}
     # ---------------- R1 RawVectorWriter::write_header vs RawVector::serialize_header
     wh = F.body(RW + "::write_header")
